@@ -123,6 +123,8 @@ NodeClauses(cfg, g, n, lastop) ==
                              \/ n.total # Cardinality(Usable(cfg)))
           THEN {"StatsTrue"} ELSE {})
   \cup (IF n.drain # -1 /\ n.drain # Cardinality(Usable(cfg) \ HeldUnits(g)) THEN {"Drain"} ELSE {})
+  \* the drain probe (fresh subscribers allocating until exhaustion) was handed one address twice
+  \cup (IF n.drain = -2 THEN {"Unique"} ELSE {})
 
 \* state invariants of the abstract state (what the property ultimately says)
 UniqueHoldings(g)  == Injective(g.held)
